@@ -10,6 +10,7 @@ import (
 	"go/types"
 	"sort"
 	"strings"
+	"text/template/parse"
 
 	"golang.org/x/tools/go/packages"
 )
@@ -75,6 +76,10 @@ var c06Contract = []chainReq{
 
 func checkC06(ctx *Ctx, r *Report) {
 	defer c06SecondHunt(ctx, r)
+	defer c06PHPStringLiterals(ctx, r)
+	// the last pass of the Java chain removes objects: what the generators are handed must not refer to them
+	defer func() { c05RemovedObjectsRewrittenEverywhere(ctx, r, newEffectsEngine(ctx)) }()
+	defer c02EnumMemberIdentifiers(ctx, r)
 	r.Explanation = "Decided from source: (1) chain contract — each Language.CompilerPasses() literal is resolved to its ordered list of pass types and checked against a frozen table: the pass establishing each clause of the normal form is present for every language the clause is stated for, and comes after every pass of the same chain that creates the construct it removes (or the objects it must see); (2) reach — each establishing pass reaches nested occurrences: visitor-based passes re-enter the visitor on the children of the node in every callback that replaces the default traversal (or return a fresh leaf), and hand-rolled recursions dispatch over every container kind in which the construct can nest and call themselves on that kind's child positions; objects created by an establishing pass are themselves processed."
 	r.NotCovered = "that a pass's rewrite is right (only that it is applied everywhere); interactions between passes beyond the table; identifier rules of the target languages beyond the presence/order of the renaming pass."
 	r.Exhaustive = true
@@ -1554,4 +1559,85 @@ func c06SecondHunt(ctx *Ctx, r *Report) {
 		r.Check(digit, "normalform/sanitised-name-starts-with-letter", "SanitizeEnumMemberNames handles a leading digit", fd.Pos(), "a name starting with a digit is prefixed",
 			"sanitizeEnumMember only knows the empty name and a leading sign: `1m`, `5m`, `1h` are not numbers (RenameNumericEnumValues leaves them alone) and reach PHP as `public static function 1M()`, which does not parse")
 	}
+}
+
+// c06PHPStringLiterals: the PHP jenny writes strings between double quotes, where `$` starts a variable and `"`, `\`
+// end or escape: (a) the formatter of values escapes `$` in strings (Go's %#v takes care of `"` and `\`); (b) the
+// enum template never pastes a member name between quotes itself — what it writes inside `self::$instances[…]` goes
+// through the value formatter.
+func c06PHPStringLiterals(ctx *Ctx, r *Report) {
+	p := ctx.Pkg("internal/jennies/php")
+	fn := ctx.LookupFunc("internal/jennies/php", "formatValue")
+	fd, _ := ctx.DeclOf(fn)
+	if p == nil || fd == nil {
+		r.Undecided("anchor lost: php.formatValue")
+		return
+	}
+	info := p.TypesInfo
+	escapes := false
+	ast.Inspect(fd.Body, func(m ast.Node) bool {
+		c, ok := m.(*ast.CallExpr)
+		if !ok || len(c.Args) < 2 {
+			return true
+		}
+		f := callee(info, c)
+		if f == nil || f.Pkg() == nil || f.Pkg().Path() != "strings" || !strings.HasPrefix(f.Name(), "Replace") {
+			return true
+		}
+		for _, a := range c.Args {
+			if tv, ok := info.Types[a]; ok && tv.Value != nil && tv.Value.Kind() == constant.String && constant.StringVal(tv.Value) == "$" {
+				escapes = true
+			}
+		}
+		return true
+	})
+	r.Count("string formatters of the PHP jenny", 1)
+	r.Check(escapes, "kinds/php-string-literals-escaped", "php.formatValue escapes the dollar sign", fd.Pos(), "`$` is replaced in string values",
+		"php.formatValue writes strings with %#v: `\"$__interval\"` is a double-quoted PHP string in which $__interval is a variable — the enum members \"$__auto\" and \"$__interval\" both hold the empty string")
+	ts, err := loadTemplates(ctx, "php")
+	if err != nil {
+		r.Undecided("templates of php: %v", err)
+		return
+	}
+	n := 0
+	for _, name := range ts.names() {
+		if !strings.Contains(ts.file[name], "enum") {
+			continue
+		}
+		var prev string
+		raw := ""
+		var visit func(l *parse.ListNode)
+		visit = func(l *parse.ListNode) {
+			if l == nil {
+				return
+			}
+			for _, c := range l.Nodes {
+				switch x := c.(type) {
+				case *parse.TextNode:
+					prev = string(x.Text)
+				case *parse.ActionNode:
+					// an action right after an opening double quote: a value pasted into a string by the template itself
+					if strings.HasSuffix(prev, `"`) && len(x.Pipe.Cmds) == 1 && raw == "" {
+						raw = x.String()
+					}
+					prev = ""
+				case *parse.IfNode:
+					visit(x.List)
+					visit(x.ElseList)
+				case *parse.RangeNode:
+					visit(x.List)
+					visit(x.ElseList)
+				case *parse.WithNode:
+					visit(x.List)
+					visit(x.ElseList)
+				}
+			}
+		}
+		visit(ts.trees[name].Root)
+		n++
+		r.Check(raw == "", "kinds/php-string-literals-escaped", "php template "+name+" writes values through the formatter", token.NoPos, ts.file[name]+": no bare value is pasted between double quotes",
+			ts.file[name]+": "+raw+" is pasted between double quotes as it is: a member named `say \"hi\"` or `a\\` gives `self::$instances[\"say \"hi\"\"]` — a parse error")
+	}
+	r.Count("PHP enum templates", n)
+	r.Floor("PHP enum templates", 1)
 }
